@@ -304,6 +304,33 @@ MUTATIONS = [
      [("                to_delete |= set(to_delete_linker)\n", "                to_delete = to_delete | to_delete_linker\n"),
       ("            to_delete_linker = set(match_indices[m_i]) - set(structure_index_map.values())\n",
        "            to_delete_linker = set(list(match_indices[m_i])) - set(structure_index_map.values())\n")], "C07:5", "pass"),
+    ("unchanged (fifth batch, placement)", "control", None, [], "C05:5", "all pass"),
+    ("replace placement: the two pre-translations exchanged", "breaking", "mofun/mofun.py",
+     [("    replace_pattern.translate(-search_pattern.positions[0])\n    search_pattern.translate(-search_pattern.positions[0])\n",
+       "    search_pattern.translate(-search_pattern.positions[0])\n    replace_pattern.translate(-search_pattern.positions[0])\n")], "C05:5", "fail"),
+    ("replace placement: replace pattern moved by +P[0]", "breaking", "mofun/mofun.py",
+     [("    replace_pattern.translate(-search_pattern.positions[0])\n", "    replace_pattern.translate(search_pattern.positions[0])\n")], "C05:5", "fail"),
+    ("replace placement: replace pattern moved by its OWN first atom", "breaking", "mofun/mofun.py",
+     [("    replace_pattern.translate(-search_pattern.positions[0])\n", "    replace_pattern.translate(-replace_pattern.positions[0])\n")], "C05:5", "fail"),
+    ("replace placement: replace pattern not pre-translated", "breaking", "mofun/mofun.py",
+     [("    replace_pattern.translate(-search_pattern.positions[0])\n", "")], "C05:5", "fail"),
+    ("Atoms.translate: -= instead of +=", "breaking", "mofun/atoms.py",
+     [("            self.positions += delta\n", "            self.positions -= delta\n")], "C05:5", "fail"),
+    ("replace placement: wrap modulo the cell lengths (% np.diag(cell))", "unsupported", "mofun/mofun.py",
+     [("new_atoms.positions.dot(np.linalg.inv(cell)) % 1.0).dot(cell)", "new_atoms.positions.dot(np.linalg.inv(cell)) % np.diag(cell)).dot(cell)")], "C05:5", "Unsupported"),
+    ("replace placement: wrapped FRACTIONAL coordinates stored (second .dot(cell) dropped)", "breaking", "mofun/mofun.py",
+     [("new_atoms.positions = (new_atoms.positions.dot(np.linalg.inv(cell)) % 1.0).dot(cell)", "new_atoms.positions = (new_atoms.positions.dot(np.linalg.inv(cell)) % 1.0)")], "C05:5", "fail"),
+    ("replace placement: cell instead of its inverse", "breaking", "mofun/mofun.py",
+     [("new_atoms.positions.dot(np.linalg.inv(cell)) % 1.0", "new_atoms.positions.dot(cell) % 1.0")], "C05:5", "fail"),
+    ("replace placement: transposed inverse (columns instead of rows)", "breaking", "mofun/mofun.py",
+     [("new_atoms.positions.dot(np.linalg.inv(cell)) % 1.0", "new_atoms.positions.dot(np.linalg.inv(cell).T) % 1.0")], "C05:5", "fail"),
+    ("replace placement: shift of 1e-9 before the modulo", "breaking", "mofun/mofun.py",
+     [("new_atoms.positions.dot(np.linalg.inv(cell)) % 1.0", "(new_atoms.positions.dot(np.linalg.inv(cell)) + 1e-9) % 1.0")], "C05:5", "fail"),
+    ("replace placement: delta through a local, `% 1`, inverse bound to a local", "neutral", "mofun/mofun.py",
+     [("    replace_pattern.translate(-search_pattern.positions[0])\n    search_pattern.translate(-search_pattern.positions[0])\n",
+       "    shift = -search_pattern.positions[0]\n    replace_pattern.translate(shift)\n    search_pattern.translate(shift)\n"),
+      ("            new_atoms.positions = (new_atoms.positions.dot(np.linalg.inv(cell)) % 1.0).dot(cell)",
+       "            new_atoms.positions = (new_atoms.positions.dot(np.linalg.inv(cell)) % 1).dot(cell)")], "C05:5", "pass"),
     # ---- leaving the subset
     ("max_bond_length: while loop added (outside the subset)", "unsupported", "mofun/detect_bonds.py",
      [('    """Return the maximum length of a bond between two elements"""\n', '    while False:\n        pass\n')], "C17", "Unsupported"),
